@@ -219,6 +219,16 @@ def run_L4(repo, res):
     rf = base.lookup('_reset_lazyproperties')
     if rf is None:
         raise AnalysisError('vanished anchor: ApertureAttribute._reset_lazyproperties')
+    # ... and no descriptor subclass replaces it by a narrower reset
+    for c in mod.classes.values():
+        if c is base or not c.is_subclass_of(base.fullname):
+            continue
+        ov = c.methods.get('_reset_lazyproperties')
+        res.oblige('L4', f'{c.name} uses the complete cache reset of ApertureAttribute', not ov, nontrivial=True)
+        if ov:
+            res.add(Finding('L4', ov[0].fullname, 'override of _reset_lazyproperties', ov[0].loc,
+                            f'{c.name} overrides _reset_lazyproperties: a hand-kept list of caches goes stale as soon as another '
+                            f'lazyproperty depends on the attribute (shape/isscalar of an aperture depend on positions)', {}))
     ok = False
     for node in ast.walk(rf.node):
         if isinstance(node, ast.For) and unparse(node.iter) == 'instance._lazyproperties' \
@@ -389,4 +399,6 @@ def run(repo, tier):
     res.floor('ECALL-entries', 30)
     res.floor('lazy-classes', 25)
     res.exhaustive_rules = ['L1 over (public entry x lazyproperty) pairs of every lazy class', 'L4', 'ECALL over all call-like entries']
+    from .common import run_class_mutable
+    run_class_mutable(repo, res, {m for m in repo.modules if '.tests' not in m})
     return res
